@@ -516,6 +516,10 @@ func main() {
 	for round := lib.Count(2, 25); round > 0; round-- {
 		jsonRepresentations(r, w, round)
 	}
+	// class "vector length bounds" (bounds.go)
+	for round := lib.Count(2, 6); round > 0; round-- {
+		vectorBounds(r, w, round)
+	}
 	w.Close()
 	fmt.Printf("c04: wrote %d cases\n", w.Len())
 }
